@@ -22,16 +22,44 @@ Record res := {
   r_pat   : ctx -> list verdict              (* contribution of node as an element of case.patterns *)
 }.
 
-(* _strip_quotes *)
-Definition strip_quotes (v : str) : str :=
-  match v with
-  | q :: r =>
-      match rev r with
-      | q' :: mid => if (N.eqb q 34 && N.eqb q' 34) || (N.eqb q 39 && N.eqb q' 39) then rev mid else v
-      | [] => v
+(* _strip_quotes: bash quote removal on a word's text.  None = the word is returned unchanged
+   (an unterminated quote). *)
+Inductive qmode := QUn | QSingle | QDouble.
+Definition dq_escapable : list N := [36; 96; 34; 92].       (* dollar, backtick, double quote, backslash *)
+
+Fixpoint quote_removal (m : qmode) (s : str) (acc : str) {struct s} : option str :=
+  match s with
+  | [] => match m with QUn => Some (rev acc) | _ => None end
+  | c :: r =>
+      match m with
+      | QUn =>
+          if N.eqb c 39 then quote_removal QSingle r acc
+          else if N.eqb c 34 then quote_removal QDouble r acc
+          else if N.eqb c 92 then
+            match r with
+            | [] => Some (rev (c :: acc))
+            | c2 :: r2 => if N.eqb c2 10 then quote_removal QUn r2 acc else quote_removal QUn r2 (c2 :: acc)
+            end
+          else quote_removal QUn r (c :: acc)
+      | QSingle => if N.eqb c 39 then quote_removal QUn r acc else quote_removal QSingle r (c :: acc)
+      | QDouble =>
+          if N.eqb c 34 then quote_removal QUn r acc
+          else if N.eqb c 92 then
+            match r with
+            | c2 :: r2 =>
+                if mem_ch c2 dq_escapable then quote_removal QDouble r2 (c2 :: acc)
+                else if N.eqb c2 10 then quote_removal QDouble r2 acc
+                else quote_removal QDouble r (c :: acc)
+            | [] => quote_removal QDouble r (c :: acc)
+            end
+          else quote_removal QDouble r (c :: acc)
       end
-  | [] => v
   end.
+
+Definition strip_quotes (v : str) : str :=
+  if negb (mem_ch 39 v || mem_ch 34 v || mem_ch 92 v) then v
+  else if infixb [36; 39] v || infixb [36; 34] v then v       (* ANSI-C and locale quoting: left as is *)
+  else match quote_removal QUn v [] with Some out => out | None => v end.
 
 (* _get_word_value(word) for a word node *)
 Definition word_value (w : tree) : str := strip_quotes (attr_d "value" w).
